@@ -15,13 +15,17 @@ def main(tier):
         for cfg in ('shipped', 'kissel'):
             b = budget if fl == 'plain' else budget // 8
             results.append(sweeprun.run(cfg, fl, b))
+    # the same sweep in a host that traps floating-point exceptions (feenableexcept / gfortran -ffpe-trap): a function that computes
+    # 0/0 or log(-1) before it rejects its arguments then kills the process instead of reporting the failure
+    for cfg in ('shipped', 'kissel'):
+        results.append(sweeprun.run(cfg, 'plain', budget // 3, env={'XV_FPTRAP': '1'}))
     viol, paths, fns, tot = sweeprun.merge(results)
     for res in results:
         for c in res['crashes']:
             if c['kind'] == 'exit-report' or (c['fn'] == 'done'):
                 continue   # exit-time leak reports belong to C04
-            ck.violation('crash:%s:%s' % (c['kind'], c['fn']),
-                         'call neither returned a value nor reported an error (process died)',
+            ck.violation('crash:%s:%s%s' % (c['kind'], c['fn'], ':with-fp-traps' if res.get('env') else ''),
+                         'call neither returned a value nor reported an error (process died)' + (' in a host that traps floating-point exceptions' if res.get('env') else ''),
                          dict(witness=c['witness'], config=res['config'], flavour=res['flavour'],
                               reports=[r['kind'] + ' in ' + r['func'] for r in c.get('reports', [])]))
     for (fn, kind, msg), v in viol.items():
@@ -29,6 +33,21 @@ def main(tier):
             continue
         key = 'c03:%s:%s' % (kind, fn) + (':' + msg if kind in ('error-set-twice', 'stderr-output', 'error-with-value') and msg else '')
         ck.violation(key, '%s in %s (%d calls)' % (kind, fn, v['count']), dict(call=v['witness'], config=v['config'], count=v['count']))
+    # what the shared library exports is what a host program can call - and what its own symbols can pre-empt: every exported function is
+    # either declared in a public header (and therefore swept above) or one of the helper entry points the bindings are known to use
+    import json, subprocess, os
+    from .. import build
+    lib_ = build.lib('shipped', 'plain')
+    decl = {x['name'] for x in json.load(open(os.path.join(build.sigtab(), 'sigtab.json')))['declared']}
+    helpers = {'Crystal_F_H_StructureFactor2', 'Crystal_F_H_StructureFactor_Partial2', 'Refractive_Index2', 'xrl_error_new', 'xrl_error_new_literal',
+               'xrl_error_new_valist', 'xrl_set_error', 'xrl_set_error_literal', 'xrl_verif_hook'}
+    exported = [l.split()[-1] for l in subprocess.run(['nm', '-D', '--defined-only', lib_['so']], stdout=subprocess.PIPE).stdout.decode().split('\n') if l.strip()]
+    if len(exported) < 150:
+        raise common.Inconclusive('could not read the dynamic symbol table of the plain build (%d symbols)' % len(exported))
+    for sym in exported:
+        if sym not in decl and sym not in helpers:
+            ck.violation('c03:exported-symbol-without-public-declaration:%s' % sym, 'the library exports %s, which no public header declares: internal calls to it go through the PLT and bind to a '
+                         'same-named function of the host program' % sym, dict(symbol=sym, exported=len(exported), declared=len(decl)))
     # allocation failpoints: a call that notices a failed allocation (returns its failure sentinel) must store an error like any other failure
     fr = failrun.run('shipped')
     failrun.report(ck, fr, 'C03')
@@ -42,7 +61,7 @@ def main(tier):
                     'distinct = (function, error code, normalised message) return paths driven + functions with a success path driven',
                samples=samples, functions=len(fns), functions_with_success=ok_fns, error_paths=len(paths),
                successful_calls=tot['ok'], failing_calls=tot['err'], budget_per_function=budget,
-               configs=['shipped', 'kissel'], flavours=flavours, allocation_failpoints=fr['summary'],
+               configs=['shipped', 'kissel'], flavours=flavours, allocation_failpoints=fr['summary'], exported_symbols=len(exported),
                per_function={k: v for k, v in sorted(fns.items())})
     return ck.finish(cov, ['inline monitor in harness/mon_sweep.c; result classes (POSITIVE/NONNEG/ANY) from xv/sigtab.py',
                            'gcc, glibc'])
